@@ -810,7 +810,9 @@ class Normaliser:
         if binding is None:
             return None
         hb = _body_wo_doc(h.node)
-        if len(hb) == 1 and isinstance(hb[0], ast.Return) and hb[0].value is not None and ctx != "yieldfrom":
+        if len(hb) == 1 and isinstance(hb[0], ast.Return) and hb[0].value is not None and ctx != "yieldfrom" \
+                and all(self._atomic(a_) or isinstance(a_, ast.Lambda) or _purity(a_, set()) < 2
+                        for a_ in binding.values()):
             return None                 # expression-level inlining handles it (keeps the statement)
         if h.generator and ctx == "return" and not _is_generator(fn):
             # ``return self._gen(...)``: the caller hands out the helper's generator; spliced in,
